@@ -30,6 +30,7 @@ type dagCfg struct {
 	CyclePct  int
 	Buffered  int // percent
 	TwoObjPct int
+	SortPct   int  // chance of DepthFirstSort calls in the middle of the construction script
 	Templates bool // sometimes start from a hand-shaped sub-graph (skip siblings, diamond, star)
 }
 
@@ -193,6 +194,14 @@ func genDagCase(t *rapid.T, cfg dagCfg) *DagCase {
 			}
 		}
 	}
+	if chance(t, "midsort", cfg.SortPct) {
+		// a caller may sort (print the plan, validate) before the definition is complete
+		k := rapid.IntRange(1, 2).Draw(t, "nsort")
+		for j := 0; j < k; j++ {
+			pos := rapid.IntRange(0, len(calls)).Draw(t, "sortpos")
+			calls = append(calls[:pos], append([]Call{{Op: "sort"}}, calls[pos:]...)...)
+		}
+	}
 	c.Script = calls
 	total := 0
 	for i := 0; i < n; i++ {
@@ -304,6 +313,15 @@ func (p *dprop) check(c *DagCase, st *evid.Stats) error {
 	if c.SinkFails {
 		st.Class("output-writer-fails")
 	}
+	if c.Buffered {
+		st.Class("buffered-output")
+		if r.Retried {
+			st.Class("buffered-output+retry")
+		}
+	}
+	if r.MidSorts > 0 {
+		st.Class("sort-in-the-middle-of-the-definition")
+	}
 	if p.NT(c, r) {
 		var fp strings.Builder
 		b, _ := json.Marshal(c.Script)
@@ -395,15 +413,15 @@ var propC15 = &dprop{ID: "C15", Sub: "bound", Tag: "C15",
 }
 
 var propC16 = &dprop{ID: "C16", Sub: "histories", Tag: "C16",
-	Rule: "same controlled scheduler over graph-CONSTRUCTION histories: shuffled AddTask/TaskDependsOn/TaskRetries scripts with up to 3 re-adds of already known tasks at any position (same or second Task object), duplicate edges (12%), planted self edges / back edges (12%); termination within a bounded wait once everything was released, work conservation (the driver waits until exactly min(capacity, running+ready) task functions are in flight, a ready task never started shows as a stall), cycle rejection before any task starts (ErrorGraphHasCycle when the definition is otherwise error-free), DepthFirstSort validity; non-trivial = script repeats a call / plants a cycle, or a quiescent point with spare capacity was reached; distinct by (script, mode, history)",
+	Rule: "same controlled scheduler over graph-CONSTRUCTION histories: shuffled AddTask/TaskDependsOn/TaskRetries scripts with up to 3 re-adds of already known tasks at any position (same or second Task object), duplicate edges (12%), planted self edges / back edges (12%), DepthFirstSort calls in the middle of the script (each judged against the graph described so far), SetOutputBuffer on in 10-20% of the cases (with retries and failing attempts); termination within a bounded wait once everything was released, work conservation (the driver waits until exactly min(capacity, running+ready) task functions are in flight, a ready task never started shows as a stall), cycle rejection before any task starts (ErrorGraphHasCycle when the definition is otherwise error-free), DepthFirstSort validity; non-trivial = script repeats a call / plants a cycle, or a quiescent point with spare capacity was reached; distinct by (script, mode, history)",
 	Gen: func(t *rapid.T) *DagCase {
 		switch rapid.IntRange(0, 4).Draw(t, "variant") {
 		case 0: // termination / work conservation when several tasks return ErrorSkipParents (bookkeeping of "all done")
-			return genDagCase(t, dagCfg{MaxN: 8, Density: []int{10, 25, 40}, ErrPct: 2, SkipPct: 35, RetryPct: 5, Modes: allModes, CancelPct: 0, ReAdd: 1, TwoObjPct: 30, Templates: true})
+			return genDagCase(t, dagCfg{MaxN: 8, Density: []int{10, 25, 40}, ErrPct: 2, SkipPct: 35, RetryPct: 5, Modes: allModes, CancelPct: 0, ReAdd: 1, TwoObjPct: 30, Buffered: 10, SortPct: 15, Templates: true})
 		case 1: // termination after failures / cancellation with tasks queued behind a small limit (slots, result channel)
-			return genDagCase(t, dagCfg{MaxN: 8, Density: []int{0, 10, 25}, ErrPct: 20, SkipPct: 8, RetryPct: 20, Modes: []string{"max", "max", "max", "serial"}, CancelPct: 25, ReAdd: 1, TwoObjPct: 30})
+			return genDagCase(t, dagCfg{MaxN: 8, Density: []int{0, 10, 25}, ErrPct: 20, SkipPct: 8, RetryPct: 20, Modes: []string{"max", "max", "max", "serial"}, CancelPct: 25, ReAdd: 1, TwoObjPct: 30, Buffered: 20, SortPct: 15})
 		}
-		return genDagCase(t, dagCfg{MaxN: 7, Density: []int{20, 40, 70}, ErrPct: 4, SkipPct: 3, RetryPct: 15, Modes: allModes, CancelPct: 8, ReAdd: 3, DupPct: 8, CyclePct: 10, TwoObjPct: 30})
+		return genDagCase(t, dagCfg{MaxN: 7, Density: []int{20, 40, 70}, ErrPct: 4, SkipPct: 3, RetryPct: 15, Modes: allModes, CancelPct: 8, ReAdd: 3, DupPct: 8, CyclePct: 10, TwoObjPct: 30, Buffered: 15, SortPct: 30})
 	},
 	NT: func(c *DagCase, r *Result) bool {
 		seen := map[string]bool{}
@@ -546,6 +564,8 @@ func exploreOrders(base *DagCase, visit func(c *DagCase, r *Result) error) (int,
 	}
 }
 
+var errAbandon = fmt.Errorf("abandoned")
+
 func exhaustive(t *testing.T, p *dprop, n int, outcomes []string, shard, shards int, cancels ...int) {
 	if len(cancels) == 0 {
 		cancels = []int{-1}
@@ -613,8 +633,17 @@ func exhaustive(t *testing.T, p *dprop, n int, outcomes []string, shard, shards 
 							path := saveFail(p.ID, p.Sub, cc, v.Msg)
 							return fmt.Errorf("%s (case file %s)", v.Msg, path)
 						}
+						if r.Stalled {
+							// a confirmed stall is C16's verdict; every further order of this tree would cost the
+							// stall bounds again, so the enumeration ends here (never reached on a tree where C16 holds)
+							return errAbandon
+						}
 						return nil
 					})
+					if err == errAbandon {
+						t.Logf("NOTE: %s exhaustive n=%d abandoned after a confirmed stall without a %s violation (reported by C16's checks)", p.ID, n, p.ID)
+						return
+					}
 					if err != nil {
 						t.Fatalf("%s exhaustive n=%d violated: %v", p.ID, n, err)
 					}
